@@ -1015,3 +1015,9 @@ mod tests {
         assert_eq!(pma.num_states, other.num_states);
     }
 }
+
+/// Verification hooks (never compiled without `--cfg daachorse_verif`).
+#[cfg(daachorse_verif)]
+#[doc(hidden)]
+#[allow(missing_docs, clippy::all, clippy::pedantic)]
+pub mod verif;
